@@ -1094,8 +1094,8 @@ func Run(tier, replay string) {
 	}
 	sort.Strings(od)
 	rep.Extra["kinds_whose_slot_order_differs_from_textual_order"] = od
-	rep.Exhaustive = true
-	rep.Explanation = "exhaustive over the configuration space of SchemaEnum.tla (every kind, optional operands present/absent, lists of length 0..2, bundle shapes, Arg wrapping); the replace-all-uses experiments on parsed functions are a seeded sample"
+	rep.Exhaustive = false
+	rep.Explanation = "the bounded configuration space of SchemaEnum.tla is enumerated completely (every kind, optional operands present/absent, lists of length 0..2, bundle shapes, Arg wrapping), but operand lists longer than 2 only occur in the parsed corpus; the replace-all-uses experiments on parsed functions are a seeded sample"
 	rep.Assumptions = []string{
 		"Schema.tla transcribes the operand structure of the LLVM 14 LangRef correctly; the reflection pass shows that it names every value-typed field of the 66 instruction structs (a missing field is exit 2)",
 		"slots are matched by identity of the marker value, not by position: a different but complete slot order is accepted",
